@@ -22,7 +22,6 @@ import (
 	"io"
 	"strconv"
 
-	dtypeutils "github.com/siglens/siglens/pkg/common/dtypeutils"
 	"github.com/siglens/siglens/pkg/segment/query/iqr"
 	"github.com/siglens/siglens/pkg/segment/structs"
 	sutils "github.com/siglens/siglens/pkg/segment/utils"
@@ -119,7 +118,9 @@ const (
 )
 
 func compareFloat(a, b float64) compare {
-	if dtypeutils.AlmostEquals(a, b) {
+	// Compare exactly: treating values closer than 1e-4 as equal is not
+	// transitive and lets 0.00018, 0.00009, 0 pass as ascending.
+	if a == b {
 		return EQUAL
 	}
 
